@@ -272,9 +272,12 @@ class PrettyPrinter:
         lines = []
 
         def depth(iterable):
-            return isinstance(iterable, (tuple, list)) and max(map(depth, iterable)) + 1
+            return (
+                isinstance(iterable, (tuple, list))
+                and max(map(depth, iterable), default=0) + 1
+            )
 
-        if depth(root_list) == 2:
+        if depth(root_list) <= 2:
             # single set of points only
             root_list = [root_list]
 
